@@ -89,7 +89,8 @@ def handle (toks : List Str) : Str :=
     let literal : Str := "OK ".toList ++ esc (pre ++ ['{'] ++ b ++ "..".toList ++ c ++ (if d = ['-'] then [] else "..".toList ++ d) ++ ['}'])
     if ops = "BRACEN" then
       match num b, num c, incOf d with
-      | some s, some e, some i => okFields ((numSeq s e i).map (fun w => pre ++ intToStr w))
+      | some s, some e, some i =>
+        if seqAccepted s e i then okFields ((numSeq s e i).map (fun w => pre ++ intToStr w)) else literal
       | _, _, _ => literal
     else if ops = "BRACEC" then
       match b, c, incOf d with
